@@ -24,7 +24,9 @@ LEVEL_TEXT = ("Bounded exhaustive schedule exploration of the real OutputAsync b
               "loop: every arrival pattern of <=3 (quick) / <=4 (thorough) puts on a tick grid, run "
               "lengths, one failing run, every stop instant, for the three modes with/without guard "
               "time and stop_data, under every order of same-deadline timers; each execution is judged "
-              "by invariants from the statement, and exact times are predicted for wait/start modes.")
+              "by invariants from the statement, and exact times are predicted for wait/start modes. "
+              "Plus event data shapes (no data, falsy items, f_args/f_kwargs selections) x mode "
+              "spellings x arrival patterns.")
 LEVEL_NOTE = ("Virtual loop = stock CPython 3.12 _run_once; durations whole seconds; ample stop_timeout "
               "(completion is promised only within stop_timeout); during guard time the output may or "
               "may not count the finished run (the statement does not say).")
